@@ -64,7 +64,7 @@ func TestVerif_C11(t *testing.T) {
 	defer rec.Done()
 
 	root := filepath.Join(rec.Work, "c11world")
-	nSubj := rec.N(3, 4)
+	nSubj := rec.N(3, 3)
 	w, err := buildWorld(root, rec.Seed, nSubj)
 	if err != nil {
 		rec.Violation("harness/world", err.Error(), nil)
@@ -89,6 +89,9 @@ func TestVerif_C11(t *testing.T) {
 		for i := 0; i < len(muts); i += batch {
 			jobs = append(jobs, job{k, i, min(len(muts), i+batch)})
 		}
+	}
+	if os.Getenv("C11_ENUM_ONLY") != "" { // debugging aid: list the subjects and stop
+		return
 	}
 	// interleave the subjects so that the slow kinds do not all end up at the end
 	sort.SliceStable(jobs, func(i, j int) bool { return jobs[i].start < jobs[j].start })
@@ -128,6 +131,7 @@ type parent struct {
 	muts [][]mutation
 
 	mu         sync.Mutex
+	deaths     int                 // children lost to a case (death, hang, runaway allocation)
 	loadPanics map[string]*sideRec // signature -> first case
 	hangs      map[string]bool     // confirmed hang signatures
 	nside      int
@@ -179,7 +183,12 @@ type batchFile struct {
 	Muts  []mutation `json:"muts"`
 }
 
-func (p *parent) caseBudgetMS() int { return p.rec.N(2000, 5000) }
+func (p *parent) caseBudgetMS() int { return p.rec.N(4000, 8000) }
+
+// sigPhase: the corrupt shard's own searcher runs the code the sharded searcher runs
+// on it; a death there gets the signature of the search / list phase (the witness says
+// which way the shard was reached).
+func sigPhase(phase string) string { return strings.TrimPrefix(phase, "direct-") }
 
 func (p *parent) witness(k, i int, extra map[string]any) map[string]any {
 	m := &p.muts[k][i]
@@ -269,6 +278,15 @@ func (p *parent) runBatch(k, start, end int) {
 	rec := p.rec
 	watchdog := time.Duration(rec.N(240, 900)) * time.Second
 	for start < end {
+		p.mu.Lock()
+		tooMany := p.deaths >= rec.N(300, 4000)
+		p.mu.Unlock()
+		if tooMany {
+			// every death costs a process; a tree on which this many cases are fatal has
+			// been reported often enough. The rest is not run (and counted).
+			rec.Count("cases_not_run_after_too_many_deaths", int64(end-start))
+			return
+		}
 		env, side, cleanup := p.env(k, start, end, p.caseBudgetMS())
 		res := rec.RunChild("TestVerif_C11", "batch", fmt.Sprintf("%d:%d:%d", k, start, end), env, watchdog)
 		p.readSide(side)
@@ -286,6 +304,9 @@ func (p *parent) runBatch(k, start, end int) {
 			rec.Violation("harness/child died outside a case", res.CrashClass(), map[string]any{"subject": k, "start": start, "end": end, "last_case": res.LastCase, "tail": clip(res.Tail, 4000)})
 			return
 		}
+		p.mu.Lock()
+		p.deaths++
+		p.mu.Unlock()
 		// the child's own record of the case it died in is lost
 		fm := &p.muts[k][lc.I]
 		rec.Count("corruptions", 1)
@@ -301,7 +322,7 @@ func (p *parent) runBatch(k, start, end int) {
 		case res.Exit == exitRunaway:
 			p.runaway(k, lc, res)
 		default:
-			sig := lc.Phase + "/" + crashSig(res)
+			sig := sigPhase(lc.Phase) + "/" + crashSig(res)
 			rec.Count("cases_that_killed_the_process", 1)
 			rec.Count("killed_by_kind_"+p.muts[k][lc.I].Kind, 1)
 			rec.Violation(sig, fmt.Sprintf("the serving process died (%s) in phase %s%s on shard %s with corruption %s", res.CrashClass(), lc.Phase, opText(lc.Op), p.w.Subjects[k].File, lc.ID),
@@ -319,7 +340,7 @@ func (p *parent) runaway(k int, lc loggedCase, res kit.ChildResult) {
 	if m := hangSiteRe.FindStringSubmatch(res.Tail); m != nil {
 		site = m[1]
 	}
-	sig := lc.Phase + "/runaway-allocation/" + site
+	sig := sigPhase(lc.Phase) + "/runaway-allocation/" + site
 	why := ""
 	if m := giveUpRe.FindStringSubmatch(res.Tail); m != nil {
 		why = m[1]
@@ -349,7 +370,7 @@ func (p *parent) hang(k int, lc loggedCase, res kit.ChildResult) {
 	if m := hangSiteRe.FindStringSubmatch(res.Tail); m != nil {
 		site = m[1]
 	}
-	sig := "hang/" + lc.Phase + "/" + site
+	sig := "hang/" + sigPhase(lc.Phase) + "/" + site
 	p.mu.Lock()
 	known := p.hangs[sig]
 	p.mu.Unlock()
@@ -366,7 +387,7 @@ func (p *parent) hang(k int, lc loggedCase, res kit.ChildResult) {
 	case r2.Exit == exitHang || r2.TimedOut:
 		if m := hangSiteRe.FindStringSubmatch(r2.Tail); m != nil {
 			site = m[1]
-			sig = "hang/" + lc.Phase + "/" + site
+			sig = "hang/" + sigPhase(lc.Phase) + "/" + site
 		}
 		p.mu.Lock()
 		p.hangs[sig] = true
@@ -383,7 +404,7 @@ func (p *parent) hang(k int, lc loggedCase, res kit.ChildResult) {
 	case r2.Crashed():
 		var l2 loggedCase
 		_ = json.Unmarshal([]byte(r2.LastCase), &l2)
-		sig := l2.Phase + "/" + crashSig(r2)
+		sig := sigPhase(l2.Phase) + "/" + crashSig(r2)
 		rec.Count("cases_that_killed_the_process", 1)
 		rec.Violation(sig, fmt.Sprintf("the serving process died (%s) in phase %s%s on shard %s with corruption %s (the case first exceeded its time budget in a batch)", r2.CrashClass(), l2.Phase, opText(l2.Op), p.w.Subjects[k].File, lc.ID),
 			p.witness(k, lc.I, map[string]any{"phase": l2.Phase, "op": l2.Op, "exit": r2.Exit, "child_output": clip(r2.Tail, 6000)}))
@@ -518,7 +539,7 @@ func c11Child(rec *kit.Rec, mode, arg string) {
 	c.allocBudget = uint64(mib) << 20
 	go c.monitor()
 	c.full, c.reduced = battery()
-	c.directOps, c.rejectedEvery = c.full, 1
+	c.directOps, c.rejectedEvery = c.full, 2
 	if rec.Quick() {
 		// quick tier: the battery without the entries that repeat a code path
 		extra := map[string]bool{"content regexp word chunks": true, "file name regexp chunks": true, "branch exact": true, "repo set": true, "type:file": true, "everything whole": true,
@@ -664,6 +685,7 @@ func (c *child) stopTimer() {
 // load of the box); ten times the budget in wall-clock time is the backstop for a
 // case that blocks without using the CPU.
 func (c *child) monitor() {
+	overCase, overAt := -1, uint64(0)
 	for {
 		time.Sleep(5 * time.Millisecond)
 		c.tmu.Lock()
@@ -672,8 +694,17 @@ func (c *child) monitor() {
 		if !armed {
 			continue
 		}
+		// runaway allocation = the heap is over the budget AND keeps growing. One big
+		// allocation sized by a corrupt length that the process survives is not a crash
+		// (it shows in max_heap_growth_kib_of_a_finished_case); beyond the address space
+		// cap it is an out-of-memory death.
 		if h := heapAllocated(); h > a0 && h-a0 > c.allocBudget {
-			c.giveUp(lc, exitRunaway, fmt.Sprintf("heap grew by %d MiB so far (budget %d MiB)", (h-a0)>>20, c.allocBudget>>20))
+			switch {
+			case overCase != lc.I || overAt == 0:
+				overCase, overAt = lc.I, h
+			case h > overAt+c.allocBudget/2:
+				c.giveUp(lc, exitRunaway, fmt.Sprintf("heap grew by %d MiB so far and is still growing (budget %d MiB)", (h-a0)>>20, c.allocBudget>>20))
+			}
 		}
 		if used := cpuTime() - cpu0; used > c.budget {
 			c.giveUp(lc, exitHang, fmt.Sprintf("used %v of CPU time (budget %v)", used.Round(time.Millisecond), c.budget))
@@ -721,6 +752,9 @@ func stalledSites(dump string, votes map[string]int) {
 			if strings.Contains(top, m[0]) {
 				score++
 			}
+			if strings.HasPrefix(f, "index.") {
+				score += 2 // the readers and decoders live there; search.* frames are the callers
+			}
 			votes[f] += score
 			break
 		}
@@ -733,7 +767,7 @@ func (c *child) giveUp(lc loggedCase, status int, why string) {
 	pprof.StopCPUProfile()
 	votes := map[string]int{}
 	var first string
-	for i := 0; i < 3; i++ {
+	for i := 0; i < 5; i++ {
 		var sb strings.Builder
 		_ = pprof.Lookup("goroutine").WriteTo(&sb, 2)
 		stalledSites(sb.String(), votes)
